@@ -132,7 +132,7 @@ const R_SI: f64 = 8.31446261815324;
 
 pub fn run(cfg: Config) -> i32 {
     let mut m = Monitor::new(cfg.clone());
-    let (reps, nstates) = cfg.tier.pick((2, 8), (25, 40));
+    let (reps, nstates) = cfg.tier.pick((6, 12), (25, 40));
     let fams = [
         "pr",
         "pcsaft",
@@ -322,6 +322,23 @@ fn selector_sum(m: &mut Monitor, case: u64, mc: &ModelCase, ig: &IgSpec, ss: &St
                 m.check("ideal_gas:ideal mixing", &format!("{fam}|ideal mixing"), case, dev, 1e-11, det("ideal mixing", [mu[i], mup, expect]));
             }
         }
+        // the same relation in extremely dilute gases (partial densities down to 1e-30 A^-3):
+        // a component that is present, however dilute, keeps its ln rho_i term
+        for f in [1e-10, 1e-16, 1e-22] {
+            let v = ss.volume() / f;
+            let (Ok(sm), subs) = (State::new_nvt(&eos, ss.temperature(), v, &ss.moles()), (0..mc.n).map(|i| Arc::new(eos.subset(&[i]))).collect::<Vec<_>>()) else {
+                continue;
+            };
+            let mu = sm.chemical_potential(IdealGas).to_reduced();
+            for i in 0..mc.n {
+                if let Ok(sp) = State::new_nvt(&subs[i], ss.temperature(), v, &Moles::from_reduced(arr1(&[ss.ntot]))) {
+                    let mup = sp.chemical_potential(IdealGas).to_reduced()[0];
+                    let expect = ss.t * ss.x[i].ln();
+                    let dev = ((mu[i] - mup) - expect).abs() / (mu[i].abs() + mup.abs() + expect.abs());
+                    m.check("ideal_gas:ideal mixing in the dilute limit", &format!("{fam}|ideal mixing dilute"), case, dev, 1e-11, || json!({"state": ss.json(), "density factor": f, "component": i, "partial density": ss.rho * f * ss.x[i], "mu_mix": mu[i], "mu_pure": mup, "kT ln x": expect}));
+                }
+            }
+        }
     }
 }
 
@@ -371,7 +388,7 @@ fn cp_ig_of(ig: &Arc<IdealGasModel>, t: f64, x: &[f64]) -> Option<f64> {
 }
 
 fn heat_capacity_random(m: &mut Monitor, cfg: &Config) {
-    let n = cfg.tier.pick(400, 20000);
+    let n = cfg.tier.pick(2000, 20000);
     let cases: Vec<u64> = (0..n).collect();
     par_cases(m, &cases, |m, _, &i| {
         let mut rng = Rng::derive(cfg.seed, "c10-cp", i);
@@ -448,7 +465,7 @@ fn heat_capacity_shipped(m: &mut Monitor, cfg: &Config) {
     let dir = params_dir().join("ideal_gas");
     // DIPPR: every record of poling2000
     let recs = load_json_array(&dir.join("poling2000.json"));
-    let nt = cfg.tier.pick(4, 40);
+    let nt = cfg.tier.pick(10, 40);
     par_cases(m, &recs, |m, i, r| {
         let Ok(pr) = serde_json::from_value::<PureRecord<DipprRecord>>(r.clone()) else {
             m.check_bool("cp_ig:dippr shipped parses", "poling2000|parse", 2_000_000 + i, false, || r.clone());
